@@ -5,19 +5,102 @@ RULE = RULES["C13"]
 ASSUMPTIONS = ASSUMPTIONS_FOR["C13"]
 
 
+RULE = RULE + (
+    " Additionally (task first-datagram-shapes): one evaluation = a fresh server (certificate chains of 1-3 certificates, max_datagram_size 1200/1350) that "
+    "receives ONE datagram from an address and then nothing: a genuine Initial (built by the independent implementation) followed in the same datagram by 0-6 "
+    "further parseable packets the server cannot decrypt (0-RTT / Handshake long headers, short headers) and zero padding, of a generated total size; all timers are "
+    "then fired for 10 s. The bytes the server sends must never exceed three times the size of that datagram, and every datagram carrying an ack-eliciting "
+    "Initial packet must be at least 1200 bytes."
+)
+
+
+def first_datagram_case(ctx, case):
+    from vlib import endpoints as E, refquic as R, tlspeer as P
+
+    with E.pinned(("c13-first", case["leaf"], case["mds"])):
+        peer = P.ClientPeer(leaf=case["leaf"], server_kw={"max_datagram_size": case["mds"]})
+        ch = peer.ref.client_hello()
+        payload = R.encode_frames([{"name": "crypto", "offset": 0, "data": ch}])
+        dg = peer.packet("initial", payload, pad_to=0)
+        pn = 7
+        for kind, n in case["extra"]:
+            body = bytes((i * 31 + n) & 0xFF for i in range(max(n, 20)))
+            if kind == "short":
+                dg += bytes([0x40]) + peer.sut_cid + body
+                break  # a short header packet extends to the end of the datagram
+            ptype = R.PT_ZERO_RTT if kind == "0rtt" else R.PT_HANDSHAKE
+            dg += R.build_long_header(peer.version, ptype, peer.sut_cid, P.HARNESS_CID, pn, 2, len(body), tag_len=0)[:-2] + body
+            pn += 1
+        if len(dg) < case["total"]:
+            dg += bytes(case["total"] - len(dg))
+        dg = dg[:65000]
+        received = len(dg)
+        sent = 0
+        short_initial = None
+        try:
+            peer.deliver(dg)
+            now = peer.now
+            for _ in range(60):
+                for data, addr in peer.sut.datagrams_to_send(now=now):
+                    sent += len(data)
+                    for info in R.split_datagram(data, 8, require_fixed_bit=False):
+                        if info.ptype == R.PT_INITIAL and len(data) < 1200:
+                            try:
+                                _, _, pl = R.unprotect(peer.rx["initial"], data[info.start : info.end], info.pn_offset_rel, 0)
+                                if any(R.is_ack_eliciting(f["name"]) for f in R.parse_frames(pl, strict=False)):
+                                    short_initial = len(data)
+                            except Exception:  # noqa
+                                pass
+                while peer.sut.next_event() is not None:
+                    pass
+                t = peer.sut.get_timer()
+                if t is None or t > peer.now + 10.0:
+                    break
+                now = max(now, t)
+                peer.sut.handle_timer(now=now)
+        except Exception as e:  # noqa - exceptions are C05's subject
+            ctx.cls("first-datagram:api-raised")
+        ctx.case(("first-dg", repr(case)), nontrivial=sent > 1200, classes=["first-datagram:" + case["leaf"], "first-datagram:extra-%d" % len(case["extra"]), "first-datagram:" + ("answered" if sent else "ignored")])
+        if sent > 3 * received:
+            ctx.violation("anti-amplification-limit-exceeded", "the server sent %d bytes to an address from which it received one datagram of %d bytes (an Initial followed by %d more packets it cannot decrypt)" % (sent, received, len(case["extra"])), case)
+        if short_initial is not None:
+            ctx.violation("server-initial-datagram-shorter-than-1200", "a server datagram of %d bytes carries an ack-eliciting Initial packet" % short_initial, case)
+
+
+def first_datagram_task(ctx, examples, shard):
+    from hypothesis import strategies as st
+    from vlib.harness import run_hypothesis
+
+    extra = st.lists(st.tuples(st.sampled_from(["0rtt", "0rtt", "handshake", "short"]), st.sampled_from([20, 20, 40, 100, 300])), max_size=6)
+    strat = st.fixed_dictionaries({"kind": st.just("first-dg"), "leaf": st.sampled_from(["ed25519", "p256", "rsa", "chain2", "chain3", "chain3"]), "mds": st.sampled_from([1200, 1350]), "extra": extra, "total": st.sampled_from([1200, 1200, 1201, 1350, 1500, 4000])})
+
+    def body(ctx, case):
+        first_datagram_case(ctx, case)
+        if ctx.want_sample():
+            ctx.sample(case)
+
+    run_hypothesis(ctx, body, strat, examples, shard=shard)
+
+
 def plan(tier, seed):
     from vlib import simchecks
 
-    return simchecks.plan_for("C13", tier, seed)
+    t = simchecks.plan_for("C13", tier, seed)
+    t.append(("first-datagram-shapes", {"fn": "firstdg", "examples": 150 if tier == "quick" else 6000, "shard": 0}))
+    return t
 
 
 def run_task(ctx, name, fn, **kw):
     from vlib import simchecks
 
+    if fn == "firstdg":
+        return first_datagram_task(ctx, kw["examples"], kw["shard"])
     simchecks.run_task(ctx, "C13", name, fn, **kw)
 
 
 def replay(ctx, case):
     from vlib import simchecks
 
+    if case.get("kind") == "first-dg":
+        return first_datagram_case(ctx, dict(case, extra=[tuple(x) for x in case["extra"]]))
     simchecks.replay(ctx, case, "C13")
